@@ -1,16 +1,21 @@
 import Driver.Util
 import GitBugModel.Model.Conn
+import GitBugModel.Model.Cursor
 /-! Driver command for C20: one line = one `NameCon` call. -/
 namespace Driver.C20
 open Lean Driver GitBugModel.Conn
 
-/-- Input: `{n, cursors:[enc 0 … enc (n-1)], after, before, first, last}`.  `enc` is the
-table supplied by the harness (what `OffsetToCursor` returned), so the model is run with the
-implementation's own encoder, as the theorems are parametric in it. -/
+/-- Input: `{n, cursors:[enc 0 … enc (n-1)], after, before, first, last}`.  The model is run with
+its own encoder (`Cursor.offsetToCursor`, proved injective); the table the harness supplies (what
+`connections.OffsetToCursor` returned) must be that encoder's table, else the answer says where
+they differ. -/
 def handle (j : Json) : Json :=
   let n := getNat j "n"
   let table := (strArr j "cursors").toArray
-  let enc : Nat → String := fun i => table.getD i s!"<no-cursor-{i}>"
+  let enc : Nat → String := GitBugModel.Cursor.offsetToCursor
+  match (List.range table.size).find? (fun i => table.getD i "" != enc i) with
+  | some i => Json.mkObj [("encoderDiffersAt", jnat i), ("model", Json.str (enc i))]
+  | none =>
   let inp : Input := { after := getStr? j "after", before := getStr? j "before",
                        first := getInt? j "first", last := getInt? j "last" }
   match paginate enc (List.range n) inp with
